@@ -118,6 +118,23 @@ Fixpoint count_nat (x : nat) (l : list nat) : nat :=
 Definition positions (len : nat) (cs : list N) : list nat :=
   map (fun c => N.to_nat (N.modulo c (N.of_nat len))) cs.
 
+(* ---------------------------------------------------------------- rndPicker (the default strategy) *)
+(* func rndPicker(r *Route) *Target { return r.wTargets[randIntn(len(r.wTargets))] }
+   randIntn(n) is 0 for n == 0 and math/rand.Intn(n) otherwise: the package-level generator, which is
+   safe for concurrent use.  The generator is the ONLY shared state of a rnd pick; it is abstract here:
+   [draw st n] returns the new generator state and an index, one linearizable action (ASSUMPTION, see
+   checks/C06.json; a private *rand.Rand would not satisfy it).  A thread performs [rn_todo] picks and
+   records what each returned (Panic = index out of range). *)
+Record rn_local := { rn_todo : nat; rn_picks : list (outcome nat) }.
+Definition rn_init (picks : nat) : rn_local := {| rn_todo := picks; rn_picks := [] |}.
+Definition rn_step {St} (draw : St -> nat -> St * nat) (ring : list nat) (st : St) (l : rn_local) : St * rn_local :=
+  match rn_todo l with
+  | O => (st, l)
+  | S k => let '(st', i) := match ring with [] => (st, O) | _ => draw st (length ring) end in
+           (st', {| rn_todo := k;
+                    rn_picks := rn_picks l ++ [match nth_error ring i with Some t => Ok t | None => Panic end] |})
+  end.
+
 (* ---------------------------------------------------------------- redirect URL on the shared target *)
 (* Table.Lookup, for a target with RedirectCode != 0, calls target.BuildRedirectURL(req.URL):
        t.RedirectURL = &url.URL{... template ...}                         [DAlloc]
